@@ -444,11 +444,35 @@ def is_sliced_closure(b, facts=None):
 # ----------------------------------------------------------------------------------
 # context-carrying traversal (control dependence read off THIR nesting)
 
+def _diverging(n):
+    """does evaluating n always leave the enclosing statement sequence (return / break /
+    continue / panic)?  Used for early-exit guards: `if c { continue }`."""
+    n = strip(n)
+    if not isinstance(n, dict):
+        return False
+    k = n.get("k")
+    if k in ("Return", "Break", "Continue"):
+        return True
+    if k == "Call":
+        return n.get("ty") == "!" or (callee(n) or "").startswith("core::panicking::") or (callee(n) or "").startswith("std::panicking::")
+    if k == "Block":
+        for s in n["stmts"]:
+            if s["s"] == "expr" and _diverging(s["e"]):
+                return True
+        return n.get("e") is not None and _diverging(n["e"])
+    if k == "If":
+        return n.get("else") is not None and _diverging(n["then"]) and _diverging(n["else"])
+    return False
+
+
 def walk_ctx(n, ctx=()):
     """Yield (node, ctx) for every expression node under n.  ctx is a tuple of frames:
     ('if', if_node, 'cond'|'then'|'else'), ('arm', match_node, index), ('guard', match_node, index),
-    ('loop', loop_node), ('let-else', stmt).  Structured control flow only: a node is
-    executed only if every enclosing frame's branch is taken."""
+    ('loop', loop_node), ('logic', node, op), and — for statements that follow an early-exit
+    guard in the same block — ('after', if_node, truth) meaning "if_node's condition had
+    value `truth` (the other branch left the block)", ('after-arm', match_node, [indices of
+    the arms that did not leave]) and ('let-else', stmt).  Structured control flow only: a
+    node is executed only if every enclosing frame holds."""
     if n is None:
         return
     yield n, ctx
@@ -482,9 +506,124 @@ def walk_ctx(n, ctx=()):
         for x in walk_ctx(n["r"], ctx + (("logic", n, n["op"]),)):
             yield x
         return
+    if k == "Block":
+        cur = ctx
+        for s in n["stmts"]:
+            if s["s"] == "expr":
+                for x in walk_ctx(s["e"], cur):
+                    yield x
+                e = strip(s["e"])
+                if isinstance(e, dict) and e.get("k") == "If":
+                    if e.get("else") is None and _diverging(e["then"]):
+                        cur = cur + (("after", e, False),)
+                    elif e.get("else") is not None and _diverging(e["else"]) and not _diverging(e["then"]):
+                        cur = cur + (("after", e, True),)
+                    elif e.get("else") is not None and _diverging(e["then"]) and not _diverging(e["else"]):
+                        cur = cur + (("after", e, False),)
+                elif isinstance(e, dict) and e.get("k") == "Match" and not str(e.get("source", "")).startswith("ForLoopDesugar"):
+                    stay = [i for i, a in enumerate(e["arms"]) if not _diverging(a["body"])]
+                    if len(stay) < len(e["arms"]):
+                        cur = cur + (("after-arm", e, stay),)
+            else:
+                if s.get("init") is not None:
+                    for x in walk_ctx(s["init"], cur):
+                        yield x
+                for g in pat_exprs(s["pat"]):
+                    for x in walk_ctx(g, cur):
+                        yield x
+                if s.get("else") is not None:
+                    for x in walk_ctx(s["else"], cur):
+                        yield x
+                    cur = cur + (("let-else", s),)
+        if n.get("e") is not None:
+            for x in walk_ctx(n["e"], cur):
+                yield x
+        return
     for ch in kids(n):
         for x in walk_ctx(ch, ctx):
             yield x
+
+
+def path_facts(ctx):
+    """[(condition expr, truth)] that hold on the path described by ctx: conditions of the
+    enclosing ifs and of the early-exit guards passed on the way."""
+    out = []
+    for fr in ctx:
+        if fr[0] == "if" and fr[2] in ("then", "else"):
+            out.append((fr[1]["cond"], fr[2] == "then"))
+        elif fr[0] == "after":
+            out.append((fr[1]["cond"], fr[2]))
+        elif fr[0] == "logic":
+            # right operand of && is evaluated only if the left is true; of || only if false
+            out.append((fr[1]["l"], fr[2] == "And"))
+    norm = []
+    for cond, truth in out:
+        c = strip(cond)
+        while isinstance(c, dict) and ((c.get("k") == "Unary" and c.get("op") == "Not") or (c.get("k") == "Call" and callee(c) == "core::ops::bit::Not::not")):
+            c = strip(c["e"] if c.get("k") == "Unary" else c["args"][0])
+            truth = not truth
+        # a true conjunction makes both conjuncts true; a false disjunction makes both false
+        stack = [(c, truth)]
+        while stack:
+            e, t = stack.pop()
+            e = strip(e)
+            neg = False
+            while isinstance(e, dict) and ((e.get("k") == "Unary" and e.get("op") == "Not") or (e.get("k") == "Call" and callee(e) == "core::ops::bit::Not::not")):
+                e = strip(e["e"] if e.get("k") == "Unary" else e["args"][0])
+                t = not t
+            if isinstance(e, dict) and e.get("k") == "LogicalOp" and ((e["op"] == "And" and t) or (e["op"] == "Or" and not t)):
+                stack.append((e["l"], t))
+                stack.append((e["r"], t))
+            else:
+                norm.append((e, t))
+    return norm
+
+
+def some_bindings_on_path(ctx):
+    """Option scrutinee expressions known to be `Some` on this path (if-let / match arm /
+    let-else / early `None => continue`), with the pattern that binds the payload."""
+    out = []
+    for fr in ctx:
+        if fr[0] == "if" and fr[2] == "then":
+            cond = strip(fr[1]["cond"])
+            if cond.get("k") == "Let" and _is_some_pat(cond["pat"]):
+                out.append((cond["e"], cond["pat"]))
+        elif fr[0] == "arm":
+            a = fr[1]["arms"][fr[2]]
+            if _is_some_pat(a["pat"]):
+                out.append((fr[1]["scrutinee"], a["pat"]))
+        elif fr[0] == "after-arm":
+            for i in fr[2]:
+                a = fr[1]["arms"][i]
+                if _is_some_pat(a["pat"]):
+                    out.append((fr[1]["scrutinee"], a["pat"]))
+        elif fr[0] == "let-else":
+            if _is_some_pat(fr[1]["pat"]):
+                out.append((fr[1].get("init"), fr[1]["pat"]))
+    return out
+
+
+def _is_some_pat(p):
+    while isinstance(p, dict) and p.get("k") in ("Deref", "DerefPattern"):
+        p = p["sub"]
+    return isinstance(p, dict) and p.get("k") == "Variant" and p.get("adt") == "core::option::Option" and p.get("variant") == "Some"
+
+
+def none_on_path(ctx):
+    """Option scrutinee expressions known to be `None` on this path."""
+    out = []
+    for fr in ctx:
+        if fr[0] == "if" and fr[2] == "else":
+            cond = strip(fr[1]["cond"])
+            if cond.get("k") == "Let" and _is_some_pat(cond["pat"]):
+                out.append(cond["e"])
+        elif fr[0] == "arm":
+            p = fr[1]["arms"][fr[2]]["pat"]
+            while isinstance(p, dict) and p.get("k") in ("Deref", "DerefPattern"):
+                p = p["sub"]
+            if isinstance(p, dict) and p.get("k") == "Variant" and p.get("adt") == "core::option::Option" and p.get("variant") == "None":
+                out.append(fr[1]["scrutinee"])
+    return out
 
 
 def bindings_of(root):
